@@ -299,6 +299,7 @@ def run(chk):
     _loopraise_rule(chk, prog)
     _timerarm_rule(chk, prog)
     _coercedetach_rule(chk, prog)
+    _cancelsticks_rule(chk, prog)
     from rules.c14 import _castrange_rule
     _castrange_rule(chk, prog.tus["ev.c"], rule="C07-TIMECAST",
                     desc="a duration is converted to the timer queue's integer timestamp only after NaN and out-of-range values were excluded "
@@ -538,10 +539,57 @@ def _coercedetach_rule(chk, prog):
             chk.instance(rule)
             chk.analysed(fn)
             ends = [c for c in x.kids[1].walk() if c.k == "call" and c.callee in ("janet_async_end", "janet_fiber_did_resume")]
-            if ends:
+            # the invalidation must not depend on how far the abandoned wait had got (a timer-only wait has no stream
+            # callback yet): apart from the signal test the condition may only ask whether there is a task at all
+            extra = []
+            for alt in flow._atoms(x.kids[0], True):
+                for (a, t) in alt:
+                    names = set(y.name for y in a.walk() if y.k == "ref") | set(y.field for y in a.walk() if y.k == "mem")
+                    if "JANET_SIGNAL_EVENT" in names:
+                        continue
+                    if names - {"janet_vm", "root_fiber", "NULL"} and not (names <= {"janet_vm", "root_fiber"}):
+                        extra.append(a)
+            if extra:
+                chk.violation(rule, fn.tu.name, fn.name, "cond:" + extra[0].text()[:24].replace(" ", ""), bumps[0].loc,
+                              "%s forgets an abandoned await only when `%s` also holds: a wait that had registered nothing but a timer "
+                              "(ev/sleep inside a function that C called back) keeps its timer armed under the task's generation, and the timer "
+                              "later completes the task's next, unrelated wait" % (fn.name, extra[0].text()[:50]))
+            elif ends:
                 chk.ok(rule, "%s: the coerced await is detached from its stream" % fn.name)
             else:
                 chk.violation(rule, fn.tu.name, fn.name, "sched_id++", bumps[0].loc,
                               "%s turns an await into an error and bumps the task's generation (%s) but leaves the fiber registered with the "
                               "stream it had attached to: a later event on that stream resumes the task out of an unrelated wait" % (fn.name, bumps[0].loc))
     chk.floor(rule, 2, n)
+
+
+def _cancelsticks_rule(chk, prog):
+    """Cancelling a task queues its resumption with the error and marks the fiber CANCELED until the loop has delivered
+    it.  In that window the fiber is still attached to whatever it waited for; if that source fires (its stream is
+    closed in the same turn) the resulting schedule would bump the generation, the queued cancellation would be
+    skipped as stale, and the task would receive the source's result instead of the cancellation.  So a schedule for
+    a fiber whose cancellation is pending is dropped - the test comes before anything is queued."""
+    rule = "C07-CANCELSTICKS"
+    chk.rule(rule, "janet_schedule_general queues nothing for a fiber whose cancellation is still pending (the CANCELED flag is tested before the generation is bumped)")
+    fn = prog.need_func("janet_schedule_general", "ev.c")
+    chk.analysed(fn)
+    chk.instance(rule)
+    pushes = [c for c in fn.nodes if c.k == "call" and c.callee in ("janet_q_push", "janet_q_push_head")]
+    if not pushes:
+        raise AnalysisBroken("janet_schedule_general no longer pushes to the run queue")
+    IN, T = flow.condition_facts(fn)
+    bad = None
+    for x, S in flow.states_at(fn, IN, T):
+        if x in pushes:
+            for ps in S:
+                if not any("JANET_FIBER_EV_FLAG_CANCELED" in " ".join(toks) or (ln is not None and any("JANET_FIBER_EV_FLAG_CANCELED" in y.macro_names() for y in ln.walk()))
+                           for (op, l, r, toks, ln, rn) in ps):
+                    bad = x
+    if bad is None:
+        chk.ok(rule, "janet_schedule_general: every push is behind the test of the CANCELED flag")
+    else:
+        chk.violation(rule, "ev.c", fn.name, "push", bad.loc,
+                      "janet_schedule_general reaches `%s` without having tested JANET_FIBER_EV_FLAG_CANCELED: an event that fires between a cancel "
+                      "and its delivery (the stream is closed in the same turn) reschedules the fiber, makes the queued cancellation stale "
+                      "and the task gets the event's result instead of the cancellation" % bad.text()[:40])
+    chk.floor(rule, 1)
